@@ -8,16 +8,21 @@ CFG = dict(
           "unary entry with the id of a returned call), C01_no_fabrication (every unary handler invocation belongs to exactly one call, "
           "a unary one, and was given that call's payload), C01_never_two (at most one result per call), C01_complete (Q-form: in a "
           "quiescent state - both components quiescent, both wires empty, no handler at its gate - reached without an injected fault "
-          "by Invoke programs, every call has returned); plus the structural theorems C01_projection_client / C01_projection_server "
+          "by Invoke programs, every call has returned - returned only: fault_free admits cancellation), C01_complete_ok (never none: in such a "
+          "state, when moreover nobody cancelled or expired - no_cancel - and payloads and f are non-negative, i.e. decodable, EVERY call has "
+          "returned OK with f(its own request): the conditional C01_pairing / C01_exactly_once then apply to every call); plus the structural theorems C01_projection_client / C01_projection_server "
           "(every system run is a run of each component model), C01_wire_c2s / C01_wire_s2c (what a side has read is a prefix of what "
           "the other wrote: nothing lost, duplicated, reordered, altered or fabricated in transit), C01_request_exact and "
           "C01_server_reply_origin. The Proxy / Demux topologies are covered in the model by C16 / C18 (they refine a FIFO wire) and "
           "on the real code by running the rig through the real Proxy and Demux. The tie: the boolean predicates spec_c01 of "
           "coq/Check/C01c.v (pairing, exactly one result, handler exactly once with the caller's request, reply as produced, wire ids "
           "distinct and echoed) are evaluated on every history recorded from the REAL client connection + server; the two component "
-          "models are tied lock-step to the code by ./check CL and ./check SV (not by this check).",
+          "models are tied lock-step to the code by ./check CL and ./check SV, and - since round 2 - the SYSTEM model is tied to the code by "
+          "this check too: coq/Check/C01a.v replays every recorded lock-step schedule of up to 24 calls on Model/Sys.v (one external action, "
+          "then all orders of the internal rules of the component concerned, the wires in between) and every step's events must be predicted "
+          "by some model outcome (reason 1).",
     props="Props/C01.v",
-    theorems=["C01_projection_client", "C01_projection_server", "C01_wire_c2s", "C01_wire_s2c", "C01_request_exact", "C01_server_reply_origin", "C01_pairing", "C01_exactly_once", "C01_no_fabrication", "C01_never_two", "C01_complete"],
+    theorems=["C01_projection_client", "C01_projection_server", "C01_wire_c2s", "C01_wire_s2c", "C01_request_exact", "C01_server_reply_origin", "C01_pairing", "C01_exactly_once", "C01_no_fabrication", "C01_never_two", "C01_complete", "C01_complete_ok"],
     imports=["Check.SysC", "Check.C01c", "Check.C01a"],
     case_type="c01case",
     find_bad_from="find_bad_from_a",
@@ -50,8 +55,7 @@ CFG = dict(
                  "handler invocation and call are linked by a request-metadata tag (sy-c), i.e. through the same envelope; plain calls "
                  "by the first nine bytes of the payload",
                  "a caller with an already-ended context records nothing unless its call succeeds or its handler runs",
-                 "the lock-step tie of the two component models to the code is ./check CL and ./check SV; this check ties the "
-                 "end-to-end behaviour by the spec predicates only (no agrees through Sys: exploring all internal orders of the "
-                 "product was not tractable in the time available)",
+                 "agrees through Model/Sys.v covers the lock-step cases of up to 24 calls whose actions are user step / handler step / "
+                 "deliveries (callers with dead contexts and the free-running cases are judged by the spec predicates only)",
                  "protobuf marshal/unmarshal of payloads is the library (A-codec)"],
 )
